@@ -25,6 +25,12 @@ def showRes (r : Option Cursor) : String :=
   | some c => "ok " ++ showCursor c
   | none => "err"
 
+/-- a decoded foreign input, and what it becomes when encoded and decoded again -/
+def showResRe (r : Option Cursor) : String :=
+  match r with
+  | some c => "ok " ++ showCursor c ++ " re " ++ showRes (fromString (toString c))
+  | none => "err"
+
 def op (ws : List String) : String :=
   match ws with
   | "tostr" :: rest =>
@@ -32,7 +38,7 @@ def op (ws : List String) : String :=
     | some c => hex (toString c) | none => "bad-op"
   | ["fromstr", h] =>
     match unhex h with
-    | some bs => showRes (fromString bs) | none => "bad-op"
+    | some bs => showResRe (fromString bs) | none => "bad-op"
   | "rt" :: rest =>
     match parseCursor rest with
     | some c => showRes (fromString (toString c)) | none => "bad-op"
@@ -42,7 +48,7 @@ def op (ws : List String) : String :=
   | ["fromopq", _, p] =>
     if p == "x" then "err" else
     match unhex p with
-    | some bs => showRes (fromString bs) | none => "bad-op"
+    | some bs => showResRe (fromString bs) | none => "bad-op"
   | "final" :: rest =>
     match parseCursor rest with
     | some c => boolStr (isOnFinalBlock c) | none => "bad-op"
@@ -80,6 +86,18 @@ def monitor (ws : List String) (impl : List String) : String :=
          | none => "unparsable")
       | _ => if rtHyp c then "roundtrip-error" else ""
     | none => "unparsable"
+  | "fromstr" :: _ | "fromopq" :: _ =>
+    -- foreign input: an error, or a cursor that re-encodes to an equivalent cursor
+    (match impl with
+     | "ok" :: r =>
+       (match parseCursor (r.take 7), r.drop 7 with
+        | some c, "re" :: "ok" :: r2 =>
+          (match parseCursor r2 with
+           | some c' => if equiv c c' then "" else "accepted-input-re-encodes-to-a-different-cursor"
+           | none => "unparsable")
+        | some _, ["re", "err"] => "accepted-input-does-not-decode-again-after-re-encoding"
+        | _, _ => "unparsable")
+     | _ => "")
   | "tostr" :: rest =>
     -- shortest layout that loses nothing
     match parseCursor rest, impl with
